@@ -80,6 +80,27 @@ pub const CONSTRUCTS: &[(&str, &[&str])] = &[
     ("r = [@1, [@2, @3]]", &["1", "2", "3"]),
     ("r = (@1 + @2)->type()", &["1", "2"]),
     ("r = print(@1)", &["1"]),
+    // an operator applied to an ill-typed pair stops the chain there: later operands are not reached
+    ("r = @1 * @2 + @3", &["1", "\"a\"", "3"]),
+    ("r = @1 - @2 - @3", &["1", "null", "3"]),
+    ("r = @1 + @2 - @3", &["\"a\"", "1", "3"]),
+    ("r = @1 && @2 && @3", &["true", "5", "true"]),
+    ("r = @1 || @2 || @3", &["false", "null", "true"]),
+    ("r = @1 == @2 == @3", &["1", "\"a\"", "true"]),
+    ("r = @1 / @2 + @3", &["1", "0", "3"]),
+    ("r = @1 % @2 * @3", &["1", "0", "3"]),
+    ("r = @1 + @2 + @3", &["[1]", "2", "[3]"]),
+    ("r = @1 * @2 * @3", &["2", "3", "\"x\""]),
+    ("r = [@1 + @2, @3]", &["1", "\"a\"", "3"]),
+    ("r = add(@1 * @2, @3)", &["true", "2", "3"]),
+    // the container and the key of one access read the same container
+    ("r = xs[@1][@2]", &["0", "0"]),
+    ("r = @1[xs[@2] / 10]", &["xs", "1"]),
+    ("r = o[@1](o[@2])", &["\"m\"", "\"k\""]),
+    ("xs[xs[@1] / 10] = @2", &["1", "5"]),
+    ("xs[xs[@1] / 10] += xs[@2]", &["1", "0"]),
+    ("xs[@1 : xs[@2] / 10] = @3", &["1", "1", "[7]"]),
+    ("o[@1] = o[@2]", &["\"j\"", "\"k\""]),
 ];
 
 pub fn cases(tag: u32) -> Vec<Case> {
@@ -145,3 +166,50 @@ pub const BOUND_ROUTE_PROGRAMS: &[&str] = &[
     "o := {\"id\": \"O\", \"helper\": fn () {\nreturn this.id\n}, \"run\": fn () {\nreturn this.helper() + this.helper()\n}, \"count\": fn (n) {\nif n == 0 {\nreturn this.id\n}\nreturn this.count(n - 1)\n}}\nprint(o.run())\nprint(o.count(3))\np := {\"id\": \"P\", \"helper\": o.helper, \"run\": o.run, \"count\": o.count}\nprint(p.run())\nprint(p.count(2))\n",
     "fn mk(id) {\nreturn {\"id\": id, \"helper\": fn () {\nreturn this.id\n}, \"run\": fn () {\nreturn this.helper()\n}}\n}\nx := mk(\"X\")\ny := mk(\"Y\")\ny.run = x.run\nprint(x.run())\nprint(y.run())\n",
 ];
+
+/// one access whose index, key or bound reads the container it is applied to, directly, through
+/// an alias, through a call and through `this` (shared by C01, C02, C05, C11, C14)
+pub const SELF_READ_PROGRAMS: &[&str] = &[
+    "perm := [2, 0, 1]\nprint(perm[perm[0]])\nprint(perm[perm[perm[0]]])\nys := perm\nprint(perm[ys[1]])\nfn last(l) {\nn := 0\nfor [i, e] in l {\nn = i\n}\nreturn n\n}\nprint(perm[last(perm)])\nprint(perm[last(ys)])\n",
+    "m := {\"state\": \"a\", \"a\": fn (x) {\nreturn this.state + x\n}, \"b\": 7}\nprint(m[m.state](\"c\"))\nprint(m[m[\"state\"]](\"d\"))\nalias := m\nprint(m[alias.state](\"e\"))\nm.go = fn (x) {\nreturn this[this.state](x)\n}\nprint(m.go(\"f\"))\nm.state = \"b\"\nprint(m[m.state])\n",
+    "xs := [1, 2, 3, 0]\nprint(xs[xs[3]:xs[1]])\nprint(xs[xs[3]:])\nprint(xs[:xs[0]])\nys := xs\nprint(xs[ys[3]:ys[2]])\n",
+    "o := {\"k\": \"v\", \"v\": 5}\nprint(o[o.k])\nprint(o[o[\"k\"]])\no[o.k] = 6\nprint(o)\no[o.k] += 1\nprint(o)\np := o\no[p.k] += p.v\nprint(o)\n",
+    "xs := [1, 2, 0]\nxs[xs[2]] = 5\nprint(xs)\nxs[xs[2]] += xs[1]\nprint(xs)\nys := xs\nxs[ys[2]] = ys[1]\nprint(xs)\nxs[ys[2]] += ys[1]\nprint(ys)\n",
+    "rows := [[1, 0], [0, 1]]\nprint(rows[rows[0][1]][rows[1][1]])\nrows[rows[0][1]][rows[1][1]] = 9\nprint(rows)\nrows[0] += rows\nprint(rows)\n",
+    "s := \"abc\"\nn := [2, 1, 0]\nprint(s[n[n[0]]])\nprint(s[n[2]:n[0]])\nfn pick(l) {\nreturn l[l[1]]\n}\nprint(pick(n))\nprint(n[pick(n)])\n",
+    "log := [[1], [2]]\nsame := log\nlog[0] += same\nprint(log)\nlog[1] += log[0]\nprint(log[1])\nbuf := [0, 1, 2, 3]\nview := buf\nbuf[1 : view[0] + 3] = [7, 8]\nprint(buf)\nbuf[view[0] : 2] = [5, 6]\nprint(view)\n",
+    // bounds and indices whose evaluation writes to the list: every write is kept, none is repeated
+    "xs := [1, 2, 3, 4]\nfn b(i, v, ret) {\nxs[i] = v\nreturn ret\n}\nxs[b(0, 9, 1):3] = [7, 8]\nprint(xs)\nxs[1:b(3, 6, 2)] = [5]\nprint(xs)\nys := xs\nxs[b(0, 0, 1):b(3, 1, 2)] = [ys[3]]\nprint(xs)\nxs[b(3, 5, 0):b(2, 4, 1)] = [ys[3] + ys[2]]\nprint(ys)\nt := xs[b(0, 7, 0):b(1, 8, 2)]\nprint(t)\nprint(xs[b(1, 3, 1)])\nxs[b(0, 2, 3)] = xs[b(0, 4, 0)]\nprint(xs)\nxs[b(0, 2, 1)] += xs[b(1, 4, 0)]\nprint(xs)\n",
+];
+
+/// values nested 1..24, 32, 40 and 64 containers deep (lists, objects, alternating) around six
+/// leaves, printed: shared by C02 and C19
+pub fn deep_print_programs() -> Vec<String> {
+    let mut v = vec![];
+    let depths: Vec<usize> = (1..=24).chain([32usize, 40, 64]).collect();
+    for &d in &depths {
+        for kind in 0..3 {
+            for leaf in ["1", "[1]", "{\"a\": 1}", "\"l1\\nl2\"", "[]", "{}"] {
+                let mut open = String::new();
+                let mut close = String::new();
+                for i in 0..d {
+                    let obj = kind == 1 || (kind == 2 && i % 2 == 1);
+                    if obj {
+                        open.push_str("{\"k\": ");
+                        close.insert(0, '}');
+                    } else {
+                        open.push('[');
+                        close.insert(0, ']');
+                    }
+                }
+                v.push(format!("v := {}{}{}\nprint(v)\nprint(\"end\")\n", open, leaf, close));
+            }
+        }
+    }
+    // the same depth reached by building, one level per iteration
+    for &d in &[8usize, 16, 17, 18, 33, 65] {
+        v.push(format!("v := [\"leaf\", {{\"a\": []}}]\nfor i in 0 .. {} {{\nv = {{\"children\": [v], \"n\": i}}\n}}\nprint(v)\nprint(\"end\")\n", d));
+        v.push(format!("v := \"x\\ny\"\nfor i in 0 .. {} {{\nv = [v, i]\n}}\nprint(v)\n", d));
+    }
+    v
+}
